@@ -27,6 +27,12 @@ func newStringPrefixFilter(code *syntax.Code) StringPrefixFilter {
 		return nil
 	}
 
+	// The string entry points start the scan at the candidate this filter returns, which is
+	// also the position \G is bound to. A program that tests \G must keep the caller's start.
+	if code.UsesStartAnchor() {
+		return nil
+	}
+
 	opts := code.FindOptimizations
 	minRequiredLength := opts.MinRequiredLength
 
